@@ -64,6 +64,9 @@ def correspondence(rep, ctx):
         ({"H-3": 0.5}, "mol"), ({"H-3": 500.0}, "mmol"), ({"H-3": 1.0}, "Bq"),
         # amounts that differ by less than double resolution: equal as doubles, different as exact (HP) amounts
         ({"H-3": 10**20, "C-14": 2}, "num"), ({"H-3": 10**20 + 1, "C-14": 2}, "num"),
+        # SymPy number types of the same specification
+        ({"H-3": sympy.Float(3.0), "C-14": sympy.Integer(2)}, "num"), ({"H-3": sympy.Rational(6, 2), "C-14": sympy.Float(2.0)}, "num"),
+        ({"H-3": sympy.Float(0.5)}, "mol"),
     ]
     for ds, dsid in datasets[:4]:
         for contents, unit in specs:
